@@ -788,9 +788,9 @@ pub fn determinism(n: u64) -> i32 {
         println!("{prop}: {} seeds run twice (16 workers vs 3 workers), {} divergences", a.len(), prop_bad);
         bad += prop_bad;
     }
-    let _ = std::fs::create_dir_all(format!("{VERIF}/evidence"));
+    let _ = std::fs::create_dir_all(format!("{VERIF}/selftest"));
     let _ = std::fs::write(
-        format!("{VERIF}/evidence/determinism.json"),
+        format!("{VERIF}/selftest/determinism.json"),
         serde_json::to_string_pretty(&json!({"seeds_per_profile": n, "profiles": props.len(), "executions_compared": total, "divergences": bad, "compared": ["run fingerprint (event kinds, outcomes, abstract states)", "outcome hash", "digest of every serialized object produced (keys, encapsulations, MSK, MPK)"], "worker_counts": [16, 3], "features": wire::FEATURES})).unwrap(),
     );
     if bad == 0 {
